@@ -293,8 +293,12 @@ impl<'map> CatchPerformance<'map> {
 
         let (n_fruits, n_droplets) = match (self.fruits, self.droplets) {
             (Some(mut n_fruits), Some(mut n_droplets)) => {
-                let n_remaining = (attrs.n_fruits + attrs.n_droplets)
-                    .saturating_sub(n_fruits + n_droplets + misses);
+                // * Provided values are arbitrary so their sum must not overflow
+                let n_remaining = (attrs.n_fruits + attrs.n_droplets).saturating_sub(
+                    n_fruits
+                        .saturating_add(n_droplets)
+                        .saturating_add(misses),
+                );
 
                 let new_droplets =
                     cmp::min(n_remaining, attrs.n_droplets.saturating_sub(n_droplets));
@@ -303,7 +307,8 @@ impl<'map> CatchPerformance<'map> {
 
                 n_fruits = cmp::min(
                     n_fruits,
-                    (attrs.n_fruits + attrs.n_droplets).saturating_sub(n_droplets + misses),
+                    (attrs.n_fruits + attrs.n_droplets)
+                        .saturating_sub(n_droplets.saturating_add(misses)),
                 );
                 n_droplets = cmp::min(
                     n_droplets,
@@ -375,7 +380,10 @@ impl<'map> CatchPerformance<'map> {
         match (self.tiny_droplets, self.tiny_droplet_misses) {
             (Some(n_tiny_droplets), Some(n_tiny_droplet_misses)) => match self.acc {
                 Some(acc) => {
-                    match (n_tiny_droplets + n_tiny_droplet_misses).cmp(&attrs.n_tiny_droplets) {
+                    match n_tiny_droplets
+                        .saturating_add(n_tiny_droplet_misses)
+                        .cmp(&attrs.n_tiny_droplets)
+                    {
                         Ordering::Equal => {
                             best_state.tiny_droplets = n_tiny_droplets;
                             best_state.tiny_droplet_misses = n_tiny_droplet_misses;
@@ -386,7 +394,7 @@ impl<'map> CatchPerformance<'map> {
                 None => {
                     let n_remaining = attrs
                         .n_tiny_droplets
-                        .saturating_sub(n_tiny_droplets + n_tiny_droplet_misses);
+                        .saturating_sub(n_tiny_droplets.saturating_add(n_tiny_droplet_misses));
 
                     best_state.tiny_droplets = n_tiny_droplets + n_remaining;
                     best_state.tiny_droplet_misses = n_tiny_droplet_misses;
